@@ -874,19 +874,3 @@ where
         }
     }
 }
-
-unsafe impl<K, N, E> Send for Node<K, N, E>
-where
-    K: Clone + Hash + Display + PartialEq + Eq + Send,
-    N: Clone + Send,
-    E: Clone + Send,
-{
-}
-
-unsafe impl<K, N, E> Sync for Node<K, N, E>
-where
-    K: Clone + Hash + Display + PartialEq + Eq + Sync,
-    N: Clone + Sync,
-    E: Clone + Sync,
-{
-}
